@@ -4,13 +4,17 @@ class P(vlib.Prop):
     id = "C07"
     watch = ("pkg/tarfs/fs.go", "pkg/apk/apk/install.go", "pkg/apk/apk/implementation.go", "pkg/apk/apk/installed.go", "pkg/apk/apk/package.go")
     rule = ("one stage per filesystem backend (tarfs.New(), apkfs.NewMemFS(), apkfs.DirFS(tmp)): a corpus of hand-picked ordered package lists "
-            "(every row of the rule table, both empty-origin rows, versioned replaces, three-package chains, symlinks, hard links, directories with "
-            "different modes, non-root owners, files without directory headers, a package shipping the keyring file, FixateWorld order) followed by "
-            "random ordered lists of 2-5 synthetic signed packages (synthrepo) drawn from a small pool of paths/contents/modes/origins/replaces so that "
-            "overlaps are frequent; each list is installed through apk.New(WithFS)/InitDB/InitKeyring/SetRepositories/SetWorld/ResolveWorld/InstallPackages "
-            "(explicit order) or FixateWorld; observed: error class (errors.As FileConflictError / other / none), tree before and after (path, kind, content "
-            "id, mode, uid, gid), and lib/apk/db/installed parsed by the harness's own reader. A case is non-trivial when two packages ship the same "
-            "non-directory path; distinct = distinct case terms.")
+            "(every row of the rule table, both empty-origin rows, versioned replaces, three-package chains incl. identical pairs followed by a third "
+            "package of either origin, identical content with different modes/owners, symlinks, hard links, directories with different modes, non-root "
+            "owners, files without directory headers, a package shipping the keyring file, FixateWorld order; ALL kind clashes at one path - directory / "
+            "empty file / file / link to a directory / link to a file / dangling link, both orders, unrelated / same origin / replaces; symbolic links in "
+            "directory position: lib64 -> lib layouts, chains, '..', loops, dangling, absolute targets on the in-memory backends) followed by random ordered "
+            "lists of 2-5 synthetic signed packages (synthrepo) drawn from a small pool of paths/contents/modes/origins/replaces so that overlaps are "
+            "frequent (a quarter of the cases ship one path with different kinds, a quarter are chains on one path, a sixth reach a directory under two names); "
+            "each list is installed through apk.New(WithFS)/InitDB/InitKeyring/SetRepositories/SetWorld/ResolveWorld/InstallPackages (explicit order) or "
+            "FixateWorld; observed: error class (errors.As FileConflictError / other / none), tree before and after (path, kind, content id, link target, mode, "
+            "uid, gid), and lib/apk/db/installed parsed by the harness's own reader. A case is non-trivial when two packages ship the same non-directory "
+            "path; distinct = distinct case terms.")
     stages = (
         dict(name="tarfs", cmd="c07", args=lambda t, s: ["-backend", "tarfs"]),
         dict(name="memfs", cmd="c07", args=lambda t, s: ["-backend", "memfs"]),
@@ -18,22 +22,27 @@ class P(vlib.Prop):
     )
     assumptions = (
         "file contents and link targets are compared by number: equal numbers <=> equal bytes (the code compares SHA-1 sums; collisions are outside the model)",
-        "the model declines (EUnsupported) any step whose path runs through a symbolic link and hard links to anything but a regular file; generated cases stay clear of them (a declined case is reported as a mismatch)",
+        "the filesystem is a flat map from canonical paths to nodes (no directory is reachable under two names except through symbolic links, which the model resolves as getNode/MkdirAll/openFile do); still declined (reported as a mismatch if generated): hard links to anything but a regular file, on the directory backend hard links whose target name is a link and absolute link targets (they resolve against the host's root)",
         "one package does not ship the same path twice (sortTarHeaders' map would collapse them); not generated",
         "xattrs, timestamps, scripts.tar and triggers are not observed",
         "versioned replaces entries (name<ver) are compared as raw strings by both backends and therefore never count as a declaration; the model and the spec read them the same way",
     )
     level_text = ("Theorems about an executable model of both install paths (tarfs.writeHeader; installRegularFile/writeOneFile), the InstallPackages loop with "
                   "installedFiles and the DeleteFunc pruning, and the header filter of sortTarHeaders: the two decision procedures equal the rule table "
-                  "(empty-origin rows stated exactly), a Conflict decision always surfaces as the error of the whole install with the state untouched, the "
-                  "owner invariant holds for every package list, and the database agrees with the tree on every recorded regular file (mode and content; owner "
-                  "when the header says root) while the full statement is refuted by two witnesses. The model is tied to the code by differential comparison of "
-                  "error class, final tree and parsed database text on all three backends, and the validators run on what the real code produced.")
-    level_note = ("trusted: Coq kernel, Go harness/printer/own DB reader, synthrepo; modelled not verified: Go text of the modelled functions, archive/tar, ini, "
-                  "the three FullFS implementations below the operations the install uses; correspondence is differential testing, not proof")
+                  "(empty-origin rows stated exactly) and equal the ORDER OF TESTS that goextract reads off the current source; a Conflict decision always "
+                  "surfaces as the error of the whole install with the state untouched; the owner invariant holds for every package list; the database agrees "
+                  "with the tree on the KIND of every recorded entry, on every recorded regular file (mode and content; owner when the header says root) and, on "
+                  "the streaming backends, on every recorded symbolic link; a header that survives pruning is written whenever its package ships its directory "
+                  "headers; the full statement, the tarfs symlink entries and the hard-link modes are refuted by witnesses. The model the correspondence runs "
+                  "(install_l) additionally resolves paths through symbolic links and is proved to answer as the model of the theorems wherever that one answers. "
+                  "The model is tied to the code by differential comparison of error class, final tree and parsed database text on all three backends, and the "
+                  "verified validators (rule table over kinds, every recorded entry, recorded exactly once) run on what the real code produced.")
+    level_note = ("trusted: Coq kernel, Go harness/printer/own DB reader, synthrepo, goextract's reading of the four functions; modelled not verified: Go text of "
+                  "the modelled functions beyond the extracted order of tests / flags / constants, archive/tar, ini, the three FullFS implementations below the "
+                  "operations the install uses; correspondence is differential testing, not proof")
     design_ref = "DESIGN.md 7 C07"
     modelled_not_verified = ("tarfs.WriteHeader/writeHeader/link, installAPKFiles/installRegularFile/writeOneFile, InstallPackages (sequential installer, pruning), "
                              "AddInstalledPackage/sortTarHeaders (which headers are written; the text format itself is C16's subject) are modelled by hand in "
-                             "Model/Install.v; path resolution through symbolic links is declined by the model (C17)")
+                             "Model/Install.v; path resolution through symbolic links (getNode, MkdirAll, openFile chain, Readlink/Symlink/Link/Remove at the resolved parent) is modelled in the same file on canonical paths")
 
 PROP = P()
